@@ -84,6 +84,13 @@ func (t *Type) AddAttr(attr Attr) error {
 		}
 	}
 
+	// Attributes and relationships share the same namespace
+	for i := range t.Rels {
+		if t.Rels[i].FromName == attr.Name {
+			return fmt.Errorf("jsonapi: attribute name %q is already used", attr.Name)
+		}
+	}
+
 	if t.Attrs == nil {
 		t.Attrs = map[string]Attr{}
 	}
@@ -116,6 +123,13 @@ func (t *Type) AddRel(rel Rel) error {
 	// Make sure the name isn't already used
 	for i := range t.Rels {
 		if t.Rels[i].FromName == rel.FromName {
+			return fmt.Errorf("jsonapi: relationship name %q is already used", rel.FromName)
+		}
+	}
+
+	// Attributes and relationships share the same namespace
+	for i := range t.Attrs {
+		if t.Attrs[i].Name == rel.FromName {
 			return fmt.Errorf("jsonapi: relationship name %q is already used", rel.FromName)
 		}
 	}
